@@ -25,11 +25,12 @@ type runner struct {
 	res   *lib.Result
 	files map[string]*lib.CasesFile
 	total int
+	nviol int
 }
 
 func newCasesFile() *lib.CasesFile {
 	return &lib.CasesFile{Imports: []string{"Model.Base", "Model.Ctx", "Corr.CorrC14"},
-		Typ:         "list (list prog) * list nat * list (list event)",
+		Typ:         "ctx_case",
 		Obligations: map[string]string{"ctx_machine": "ctx_mismatches cases"}}
 }
 
@@ -51,6 +52,11 @@ func caseInput(cs *Case, out *outcome) map[string]interface{} {
 
 // check runs one case on the implementation, evaluates D, and (toCoq) adds it to a cases file
 func (r *runner) check(cs *Case, family string, toCoq string) *outcome {
+	if r.nviol >= 200 && family != "replay" {
+		// enough counter-examples: do not run the remaining cases
+		r.res.Count("skipped.after-200-violations")
+		return &outcome{}
+	}
 	out := runCase(cs)
 	res := r.res
 	r.total++
@@ -94,6 +100,7 @@ func (r *runner) check(cs *Case, family string, toCoq string) *outcome {
 	}
 	in := caseInput(cs, out)
 	for _, f := range out.found {
+		r.nviol++
 		res.Violate(lib.Violation{Clause: f.clause, What: f.what + "   in: " + cs.text(), Input: in, Tags: f.tags})
 	}
 	if cs.Mode == "sched" && !out.hung && (toCoq != "" || (len(out.found) > 0 && len(res.Violations) <= 20)) {
